@@ -25,8 +25,8 @@ type zipWalk struct {
 	api, walk *ssa.Function
 	fixed     map[*ssa.Function]bool // two-parameter entries (raw, marker) that forward to walk with this constant first-entry flag
 	anyPrefix *ssa.Function          // several-markers form: the "some marker is a prefix" predicate
-	anyOK     bool          // ... has the verified shape
-	flagOK    bool          // ... and the forwarder hands its flag on unchanged
+	anyOK     bool                   // ... has the verified shape
+	flagOK    bool                   // ... and the forwarder hands its flag on unchanged
 }
 
 // markerTest: the call tests the entry name at the cursor against the walker's marker(s).
@@ -851,6 +851,78 @@ var ruleZipWalk = &core.Rule{ID: "R19.5", Min: 5,
 			}
 		}
 		s.Check(n == 3, "marker looked for at the first, the second and the looped entries", c.Pos(w.Pos()), "3 test sites", fmt.Sprintf("%d marker test sites", n))
+		// each of those tests is reached on the success side of what precedes it: the cursor moves succeeded, the
+		// header search found something, no condition on the way is constantly false
+		k := 0
+		for _, ci := range core.Calls(w) {
+			if !zw.markerTest(ci.Common()) {
+				continue
+			}
+			k++
+			bad := ""
+			for _, de := range core.DominatingConds(ci.Block()) {
+				cond, val := core.StripNot(de.Cond, de.Val)
+				switch x := cond.(type) {
+				case *ssa.Const:
+					if kb, ok := core.ConstBool(x); ok && kb != val {
+						bad = fmt.Sprintf("the test lies behind a condition that is constantly %v: it is never reached", kb)
+					}
+				case *ssa.Call:
+					for _, a := range adv {
+						if x == a && !val {
+							bad = "the test is made on the path where the cursor move failed"
+						}
+					}
+				case *ssa.BinOp:
+					if x.Op != token.EQL && x.Op != token.NEQ {
+						continue
+					}
+					other, kv := x.X, x.Y
+					if _, isC := x.X.(*ssa.Const); isC {
+						other, kv = x.Y, x.X
+					}
+					if call, ok := other.(*ssa.Call); ok && core.CalleeIs(&call.Call, "bytes", "Index") && core.IsConstInt(kv, -1) && (x.Op == token.EQL) == val {
+						bad = "the test is made on the path where no further header was found (-1)"
+					}
+				}
+			}
+			s.Check(bad == "", fmt.Sprintf("marker test #%d is reached when the walk succeeded so far", k), c.Pos(ci.Pos()), "moves succeeded, header found", bad+": entries beyond the second are never looked at, a word/, xl/ or ppt/ part there goes unnoticed")
+		}
+		// a header found by the search: its entry name lies 30 bytes further on, and only a header that was found
+		// is followed (the search answers -1 otherwise, and -1+30 is a valid move)
+		nFollow := 0
+		for _, a := range adv {
+			bo, ok := a.Call.Args[1].(*ssa.BinOp)
+			if !ok {
+				continue
+			}
+			srch, kv := bo.X, bo.Y
+			if _, isC := bo.X.(*ssa.Const); isC {
+				srch, kv = bo.Y, bo.X
+			}
+			call, ok := srch.(*ssa.Call)
+			if !ok || !core.CalleeIs(&call.Call, "bytes", "Index") {
+				continue
+			}
+			nFollow++
+			kk, _ := core.ConstInt(kv)
+			s.Check(bo.Op == token.ADD && core.IsConstInt(kv, 30), "looped entries: name at header + 30", c.Pos(a.Pos()), "advance(found + 30)", fmt.Sprintf("the cursor is moved to the header found %s %d: the entry name of a local file header starts 30 bytes behind its signature, so the marker is compared with the wrong bytes", bo.Op, kk))
+			found := false
+			for _, de := range core.DominatingConds(a.Block()) {
+				cond, val := core.StripNot(de.Cond, de.Val)
+				cmp, ok := cond.(*ssa.BinOp)
+				if !ok {
+					continue
+				}
+				switch {
+				case cmp.X == ssa.Value(call) && core.IsConstInt(cmp.Y, -1) && ((cmp.Op == token.EQL && !val) || (cmp.Op == token.NEQ && val)),
+					cmp.X == ssa.Value(call) && core.IsConstInt(cmp.Y, 0) && ((cmp.Op == token.LSS && !val) || (cmp.Op == token.GEQ && val)):
+					found = true
+				}
+			}
+			s.Check(found, "looped entries: only a header that was found is followed", c.Pos(a.Pos()), "search != -1 on the way", "the cursor is moved by the search result plus 30 although the search may have answered -1 (no further header): the walk goes on 29 bytes further and compares the marker with file data instead of stopping")
+		}
+		s.Check(nFollow >= 1, "looped entries: the cursor is moved to the header found", c.Pos(w.Pos()), fmt.Sprint(nFollow), "no cursor move by `header found + 30` in the entry walker: the loop compares the marker with the same position every time, entries beyond the second are never looked at")
 		// next-header search: bytes.Index of the local-header signature over an open-ended tail (no upper bound)
 		nIdx := 0
 		for _, ci := range core.Calls(w) {
